@@ -56,13 +56,37 @@ STATS = Stats()
 # ---------------------------------------------------------------------------
 # Explorer
 # ---------------------------------------------------------------------------
+FIRST_TRY_MS = 4000
+
+
+class _Frozen:
+  """keeps the model of a solver that has been discarded"""
+  def __init__(s, mdl): s.mdl = mdl
+  def model(s): return s.mdl
+  def reason_unknown(s): return ''
+
+
+def robust_check(assertions, timeout_ms, want_model=False):
+  """second opinion on a query the default solver gave up on: bit-blast + SAT (QF_BV), then a fresh default solver
+  with the full budget.  Returns a z3 check result (and the solver when want_model)."""
+  last = None
+  for mk in (lambda: z3.SolverFor('QF_BV'), z3.Solver):
+    try:
+      s2 = mk(); s2.set('timeout', timeout_ms); s2.add(*assertions)
+      r = s2.check(); last = s2
+    except z3.Z3Exception:
+      continue
+    if r != z3.unknown:
+      return (r, s2) if want_model else r
+  return (z3.unknown, last) if want_model else z3.unknown
 class Explorer:
   """DFS over the feasible paths of a deterministic function by re-execution."""
   cur = None
 
   def __init__(s, base_pc=(), max_paths=100000, max_decisions=2000, timeout_s=None, solver_timeout_ms=120000):
     s.solver = z3.Solver()
-    s.solver.set('timeout', solver_timeout_ms)
+    s.solver_timeout_ms = solver_timeout_ms
+    s.solver.set('timeout', min(solver_timeout_ms, FIRST_TRY_MS))
     s.base = list(base_pc)
     s.trail = []   # entries: [taken, other_feasible, flipped, cond, value]
     s.pos = 0
@@ -78,14 +102,28 @@ class Explorer:
   def feasible(s, *conds):
     t0 = time.time()
     r = s.solver.check(*s.base, *s.pc, *conds)
-    STATS.solver_s += time.time() - t0
-    STATS.solver_checks += 1
+    s._last = s.solver
     if r == z3.unknown:
-      raise Unsupported("solver returned unknown on a feasibility query: " + s.solver.reason_unknown())
+      # the incremental SMT core is occasionally erratic on bit-vector path conditions (the run time depends on
+      # the internal term order); a fresh bit-blasting solver decides the same query robustly
+      r, s._last = robust_check([*s.base, *s.pc, *conds], s.solver_timeout_ms, want_model=True)
+      STATS.robust_retries = getattr(STATS, 'robust_retries', 0) + 1
+    dt = time.time() - t0
+    STATS.solver_s += dt
+    STATS.solver_checks += 1
+    if dt > 0.5 and s._last is s.solver and r != z3.unknown:
+      # every assumption ever checked stays internalised in the incremental context; when that slows the
+      # queries down, start over with a fresh context (the path condition is passed as assumptions anyway)
+      mdl = s.solver.model() if r == z3.sat else None
+      s.solver = z3.Solver(); s.solver.set('timeout', min(s.solver_timeout_ms, FIRST_TRY_MS))
+      s._last = _Frozen(mdl)
+      STATS.solver_resets = getattr(STATS, 'solver_resets', 0) + 1
+    if r == z3.unknown:
+      raise Unsupported("solver returned unknown on a feasibility query: " + (s._last or s.solver).reason_unknown())
     return r == z3.sat
 
   def model(s):
-    return s.solver.model()
+    return s._last.model()
 
   # -- decisions ---------------------------------------------------------------
   def _note_decision(s):
@@ -143,7 +181,7 @@ class Explorer:
           blocked = []
           while True:
             if not s.feasible(*blocked): break
-            x = s.solver.model().eval(e, model_completion=True).as_signed_long()
+            x = s.model().eval(e, model_completion=True).as_signed_long()
             vals.append(x); blocked.append(e != x)
             STATS.concretisations += 1
             s.nconc += 1
